@@ -1,0 +1,246 @@
+//go:build verif
+
+package scheduler
+
+import (
+	"sync"
+	"time"
+
+	"github.com/andres-erbsen/clock"
+	"github.com/uber-go/tally"
+
+	"github.com/uber/kraken/core"
+	"github.com/uber/kraken/lib/torrent/networkevent"
+	"github.com/uber/kraken/lib/torrent/scheduler/announcequeue"
+	"github.com/uber/kraken/lib/torrent/scheduler/connstate"
+	"github.com/uber/kraken/lib/torrent/scheduler/dispatch"
+	"github.com/uber/kraken/lib/torrent/storage"
+	"github.com/uber/kraken/tracker/announceclient"
+)
+
+// This file exists for the verification harness only (build tag verif). It wraps
+// the unexported newScheduler / newState / eventLoop seams so that the harness
+// owns the order in which the scheduler's serialized events are applied.
+
+// VerifPending describes an event whose sender is blocked in send.
+type VerifPending struct {
+	ID   int
+	Kind string // Go type name of the event, e.g. "dispatcherCompleteEvent"
+	// InfoHash is set for events that concern a single torrent; Digest for removeTorrentEvent.
+	InfoHash core.InfoHash
+	Digest   core.Digest
+}
+
+type verifPending struct {
+	id      int
+	e       event
+	applied chan struct{}
+}
+
+// VerifLoop is an eventLoop whose pending sends are visible and are applied in
+// the order the harness chooses. Senders block in send exactly as they do with
+// the real unbuffered loop: until the event is taken, or the loop is stopped.
+type VerifLoop struct {
+	mu      sync.Mutex
+	pending []*verifPending
+	nextID  int
+	stopped bool
+	done    chan struct{}
+	st      *state
+}
+
+func newVerifLoop() *VerifLoop {
+	return &VerifLoop{done: make(chan struct{})}
+}
+
+func (l *VerifLoop) send(e event) bool {
+	p := &verifPending{e: e, applied: make(chan struct{})}
+	l.mu.Lock()
+	if l.stopped {
+		l.mu.Unlock()
+		return false
+	}
+	l.nextID++
+	p.id = l.nextID
+	l.pending = append(l.pending, p)
+	l.mu.Unlock()
+	select {
+	case <-p.applied:
+		return true
+	case <-l.done:
+		return false
+	}
+}
+
+func (l *VerifLoop) sendTimeout(e event, timeout time.Duration) error {
+	if l.send(e) {
+		return nil
+	}
+	return ErrSchedulerStopped
+}
+
+func (l *VerifLoop) run(*state) {}
+
+func (l *VerifLoop) stop() {
+	l.mu.Lock()
+	defer l.mu.Unlock()
+	if !l.stopped {
+		l.stopped = true
+		l.pending = nil
+		close(l.done)
+	}
+}
+
+func verifKind(e event) (string, core.InfoHash) {
+	switch v := e.(type) {
+	case connClosedEvent:
+		return "connClosedEvent", v.c.InfoHash()
+	case incomingHandshakeEvent:
+		return "incomingHandshakeEvent", v.pc.InfoHash()
+	case failedIncomingHandshakeEvent:
+		return "failedIncomingHandshakeEvent", v.infoHash
+	case incomingConnEvent:
+		return "incomingConnEvent", v.info.InfoHash()
+	case failedOutgoingHandshakeEvent:
+		return "failedOutgoingHandshakeEvent", v.infoHash
+	case outgoingConnEvent:
+		return "outgoingConnEvent", v.info.InfoHash()
+	case announceTickEvent:
+		return "announceTickEvent", core.InfoHash{}
+	case announceResultEvent:
+		return "announceResultEvent", v.infoHash
+	case announceErrEvent:
+		return "announceErrEvent", v.infoHash
+	case newTorrentEvent:
+		return "newTorrentEvent", v.torrent.InfoHash()
+	case dispatcherCompleteEvent:
+		return "dispatcherCompleteEvent", v.dispatcher.InfoHash()
+	case peerRemovedEvent:
+		return "peerRemovedEvent", v.infoHash
+	case preemptionTickEvent:
+		return "preemptionTickEvent", core.InfoHash{}
+	case emitStatsEvent:
+		return "emitStatsEvent", core.InfoHash{}
+	case blacklistSnapshotEvent:
+		return "blacklistSnapshotEvent", core.InfoHash{}
+	case removeTorrentEvent:
+		return "removeTorrentEvent", core.InfoHash{}
+	case probeEvent:
+		return "probeEvent", core.InfoHash{}
+	case shutdownEvent:
+		return "shutdownEvent", core.InfoHash{}
+	}
+	return "unknown", core.InfoHash{}
+}
+
+// VerifHarness is a scheduler whose event loop is driven by the harness. No
+// listener, ticker or announce loops are started.
+type VerifHarness struct {
+	sched *scheduler
+	loop  *VerifLoop
+}
+
+// NewVerifHarness builds an un-started scheduler around the given archive, clock
+// and announce client, with a harness-driven event loop and a fresh state.
+func NewVerifHarness(
+	config Config,
+	ta storage.TorrentArchive,
+	pctx core.PeerContext,
+	announceClient announceclient.Client,
+	clk clock.Clock) (*VerifHarness, error) {
+
+	loop := newVerifLoop()
+	s, err := newScheduler(
+		config, ta, tally.NoopScope, pctx, announceClient, networkevent.NewTestProducer(),
+		withClock(clk), withEventLoop(loop))
+	if err != nil {
+		return nil, err
+	}
+	loop.st = newState(s, announcequeue.New())
+	return &VerifHarness{sched: s, loop: loop}, nil
+}
+
+// Scheduler returns the Scheduler interface of the harnessed scheduler. Calls
+// that send an event (Download, RemoveTorrent, Stop, BlacklistSnapshot) block
+// until the harness applies the event, so run them on their own goroutines.
+func (h *VerifHarness) Scheduler() Scheduler { return h.sched }
+
+// Pending lists the events whose senders are currently blocked, oldest first.
+func (h *VerifHarness) Pending() []VerifPending {
+	h.loop.mu.Lock()
+	defer h.loop.mu.Unlock()
+	out := make([]VerifPending, 0, len(h.loop.pending))
+	for _, p := range h.loop.pending {
+		k, ih := verifKind(p.e)
+		vp := VerifPending{ID: p.id, Kind: k, InfoHash: ih}
+		if r, ok := p.e.(removeTorrentEvent); ok {
+			vp.Digest = r.digest
+		}
+		out = append(out, vp)
+	}
+	return out
+}
+
+// Apply takes the pending event with the given id off the loop (unblocking its
+// sender) and applies it to the state on the calling goroutine. Returns false if
+// no such event is pending.
+func (h *VerifHarness) Apply(id int) bool {
+	h.loop.mu.Lock()
+	var p *verifPending
+	for i, q := range h.loop.pending {
+		if q.id == id {
+			p = q
+			h.loop.pending = append(h.loop.pending[:i:i], h.loop.pending[i+1:]...)
+			break
+		}
+	}
+	h.loop.mu.Unlock()
+	if p == nil {
+		return false
+	}
+	close(p.applied)
+	p.e.apply(h.loop.st)
+	return true
+}
+
+// Tick applies a preemption tick (what the ticker loop sends every PreemptionInterval).
+func (h *VerifHarness) Tick() {
+	preemptionTickEvent{}.apply(h.loop.st)
+}
+
+// Stopped reports whether the event loop has been stopped by a shutdown event.
+func (h *VerifHarness) Stopped() bool {
+	h.loop.mu.Lock()
+	defer h.loop.mu.Unlock()
+	return h.loop.stopped
+}
+
+// Dispatcher returns the dispatcher the state holds for the torrent, or nil. Must
+// not be called concurrently with Apply / Tick.
+func (h *VerifHarness) Dispatcher(ih core.InfoHash) *dispatch.Dispatcher {
+	ctrl, ok := h.loop.st.torrentControls[ih]
+	if !ok {
+		return nil
+	}
+	return ctrl.dispatcher
+}
+
+// NumWaiters returns how many Download callers the state holds for the torrent
+// (-1 if the torrent is unknown). Must not be called concurrently with Apply / Tick.
+func (h *VerifHarness) NumWaiters(ih core.InfoHash) int {
+	ctrl, ok := h.loop.st.torrentControls[ih]
+	if !ok {
+		return -1
+	}
+	return len(ctrl.errors)
+}
+
+// Conns exposes the connection state. Must not be used concurrently with Apply / Tick.
+func (h *VerifHarness) Conns() *connstate.State { return h.loop.st.conns }
+
+// ApplyAnnounceResult applies an announce response for the torrent directly, as if
+// the tracker had returned peers. Outgoing handshakes it triggers run on their own
+// goroutines and dial the peers' addresses.
+func (h *VerifHarness) ApplyAnnounceResult(ih core.InfoHash, peers []*core.PeerInfo) {
+	announceResultEvent{ih, peers}.apply(h.loop.st)
+}
